@@ -26,11 +26,35 @@ CMD = {"ping": b"ping", "version": b"version", "verack": b"verack", "inv": b"inv
 
 
 # ----------------------------------------------------------------------------- real-code rig
+M64 = (1 << 64) - 1
+
+
+def _nonce(tag):
+    """ping nonces over the whole 64-bit range: odd tags use the top of the range (bit 63 set)"""
+    return tag if tag % 2 == 0 else M64 - tag
+
+
+def _tag_of_nonce(n):
+    if isinstance(n, int) and 0 <= n < (1 << 32):
+        return n
+    if isinstance(n, int) and M64 - (1 << 32) < n <= M64:
+        return M64 - n
+    return -1
+
+
+NETS = ["mainnet", "testnet", "regtest"]
+
+
+def _net_of(script):
+    """executions run on different networks within one process (the magic of every frame must be the current network's)"""
+    return NETS[sum(len(k) + n for ms in script.values() for k, n in ms) % 3]
+
+
 def _frame(p2p, kind, tag):
     import bits.crypto
 
     if kind == "ping":
-        payload = tag.to_bytes(8, "little")
+        payload = _nonce(tag).to_bytes(8, "little")
     elif kind == "version":
         # fixed 86-byte layout with empty user agent; start_height carries the tag
         payload = ((70015).to_bytes(4, "little") + (1).to_bytes(8, "little") + (0).to_bytes(8, "little")
@@ -59,7 +83,7 @@ def _proj_item_raw(item):
         tag = 0
         if isinstance(payload, dict):
             if kind == "ping":
-                tag = payload.get("nonce", 0)
+                tag = _tag_of_nonce(payload.get("nonce", 0))
             elif kind == "version":
                 tag = payload.get("start_height", 0)
             elif kind == "inv":
@@ -72,9 +96,13 @@ def _proj_item_raw(item):
 
 
 def _proj_sent(frame):
+    import bits.p2p as p2p
+
     cmd = frame[4:16].rstrip(b"\x00").decode("latin1")
     payload = frame[24:]
-    return [cmd, int.from_bytes(payload, "little") if cmd == "pong" else 0]
+    if frame[:4] != p2p.MAGIC_START_BYTES:
+        cmd = "wrong-network-magic:" + cmd
+    return [cmd, _tag_of_nonce(int.from_bytes(payload, "little")) if cmd == "pong" else 0]
 
 
 class _ExitEvent:
@@ -215,6 +243,7 @@ class Rig:
         self.script = script
         self.connect = connect
         self.peers = sorted(script)
+        p2p.set_magic_start_bytes(_net_of(script))
         self.sched = sched = Sched()
 
         class NodeX(p2p.Node):
@@ -318,6 +347,7 @@ class Rig:
         self.sched.release_all()
         for t in self.threads:
             t.join(timeout=2)
+        self.p2p.set_magic_start_bytes("mainnet")
 
 
 def run_schedule(script, prefix, connect=False):
